@@ -78,6 +78,9 @@ instance : IntScore Float32 where
   ofInt := Float32.ofInt
   roundHalf := roundI
 
+/-- does the tree's `esl_sq_Copy` validate the text before digitising it? (mirrors the code under check) -/
+def sqCopyGuard : Bool := true
+
 def doDigitize (s : S) (a : Alphabet) (txt : List Nat) : S × String :=
   let (st, d) := a.digitize (cstr txt)
   ({ s with d := some d, L := d.length - 2 }, outDsq s!"st={st.name}" (some d))
@@ -337,6 +340,22 @@ def step (s : S) (line : String) : S × String :=
     | some none => (s, "fault")
     | some (some f) => (s, s!"ok f={",".intercalate (f.map fnum)}")
     | none => (s, s!"erange f={",".intercalate (f0.map fnum)}")
+  else if op == "sqcopy" then
+    let bytes := argBytes ws "hex"
+    let toDig := arg? ws "to" == some "digital"
+    let other := (argNat? ws "other").getD 0 ≠ 0
+    let src : Option (Sum (List Nat) (List Nat × Nat)) :=
+      if arg? ws "from" == some "digital" then (if bytes.contains 255 then none else some (.inr (SENTINEL :: bytes ++ [SENTINEL], bytes.length)))
+      else (if cstr bytes ≠ bytes then none else some (.inl bytes))
+    match src with
+    | none => (s, "bad-op")
+    | some src =>
+      match Sq.sqCopy sqCopyGuard a src toDig (!other) with
+      | none => (s, "fault")
+      | some (.error e) => (s, s!"exception {e.name}")
+      | some (.ok (st, c)) =>
+        let body := if toDig then (c.buf.drop 1).takeWhile (· ≠ SENTINEL) else c.buf
+        (s, s!"st={st.name} n={c.n} len={body.length} body={hx body} valid={if c.consistent toDig then "ok" else "fail"}")
   else if op == "dsqcpy" then
     match s.d with
     | none => (s, "bad-op")
